@@ -47,7 +47,10 @@ def partial_trace(x, S, d):
     d = [int(v) for v in d]
     n = len(d)
     S = set(int(s) for s in S)
-    t = np.asarray(x).reshape(d + d)
+    t = np.asarray(x)
+    if t.dtype.kind in "iu" and t.dtype.itemsize < 8:
+        t = t.astype(np.int64)  # the sums are the mathematical sums: never accumulate in a narrow integer type
+    t = t.reshape(d + d)
     keep = [i for i in range(n) if i not in S]
     idx_r = list(range(n))
     idx_c = [n + i if i not in S else i for i in range(n)]
